@@ -807,8 +807,23 @@ func VerifySublayouts(layout Layout,
 	for stepName, linkData := range stepsMetadataVerified {
 		for keyID, metadata := range linkData {
 			if _, ok := metadata.GetPayload().(Layout); ok {
+				// The sublayout must be signed by the functionary that provided
+				// it. That is either a key of the layout, or, if the
+				// functionary was authorized by a certificate constraint, the
+				// key of the certificate of the signature.
+				sublayoutKey, ok := layout.Keys[keyID]
+				if !ok {
+					sig, err := metadata.GetSignatureForKeyID(keyID)
+					if err != nil {
+						return nil, err
+					}
+					sublayoutKey, err = sig.GetCertificate()
+					if err != nil {
+						return nil, err
+					}
+				}
 				layoutKeys := make(map[string]Key)
-				layoutKeys[keyID] = layout.Keys[keyID]
+				layoutKeys[keyID] = sublayoutKey
 
 				sublayoutLinkDir := fmt.Sprintf(SublayoutLinkDirFormat,
 					stepName, keyID)
